@@ -134,6 +134,21 @@ def _block(stmts):
                 r = _stmt(st)
                 stmts[i:i + 2] = r if isinstance(r, list) else [r]
                 continue
+        # C19: a refusal that is also what follows: `if a: [if b: X]; Y` / `X` (X and Y leave) is `if a and not b: Y` / `X`
+        if isinstance(st, ast.If) and not st.orelse and len(st.body) >= 2 and isinstance(st.body[0], ast.If) and not st.body[0].orelse \
+                and _leaves(st.body[0].body) and _leaves(st.body[1:]):
+            xb = st.body[0].body
+            rest = stmts[i + 1:i + 1 + len(xb)]
+            if len(rest) == len(xb) and [ast.dump(b_) for b_ in xb] == [ast.dump(b_) for b_ in rest]:
+                nb_ = _nnf(ast.copy_location(ast.UnaryOp(op=ast.Not(), operand=st.body[0].test), st.body[0].test))
+                vals = (list(st.test.values) if isinstance(st.test, ast.BoolOp) and isinstance(st.test.op, ast.And) else [st.test]) + \
+                       (list(nb_.values) if isinstance(nb_, ast.BoolOp) and isinstance(nb_.op, ast.And) else [nb_])
+                new = ast.If(test=ast.BoolOp(op=ast.And(), values=vals), body=st.body[1:], orelse=[])
+                ast.copy_location(new, st)
+                ast.copy_location(new.test, st.test)
+                ast.fix_missing_locations(new)
+                stmts[i] = new
+                continue
         # C16: consecutive guards with the same leaving body: `if a: raise E` / `if b: raise E` is `if a or b: raise E`
         if isinstance(st, ast.If) and not st.orelse and isinstance(nxt, ast.If) and not nxt.orelse and _leaves(st.body) \
                 and [ast.dump(b_) for b_ in st.body] == [ast.dump(b_) for b_ in nxt.body]:
